@@ -802,13 +802,20 @@ def reparse_cases(ctx):
         if has_empty_group(t) or not t:
             continue
         s_ = format_canonical(t)
-        via = r.choice(["parse_notation", "Pattern.pattern", "PDict"])
+        via = r.choice(["parse_notation", "Pattern.pattern", "PDict", "PSequence", "str-subclass"])
+
+        class Text(str):
+            """a string that is an instance of a subclass of str (numpy.str_, a YAML loader's scalar …): parsed like any str"""
 
         def mk():
             if via == "parse_notation":
                 return parse_notation(s_)
             if via == "Pattern.pattern":
                 return iso.Pattern.pattern(s_)
+            if via == "PSequence":
+                return iso.PSequence(s_)
+            if via == "str-subclass":
+                return iso.Pattern.pattern(Text(s_)) if r.random() < 0.5 else iso.PDict({"note": Text(s_)})["note"]
             return iso.PDict({"note": s_})["note"]
         try:
             p1 = mk()
@@ -819,6 +826,10 @@ def reparse_cases(ctx):
                 next(p1)
             p2 = mk()
             second = [repr(next(p2)) for _ in range(n)]
+            # … and the first one, reset, starts again from the beginning too: nested groups included (each group of the
+            # string is a sequence of its own, rewound with its parent)
+            p1.reset()
+            again = [repr(next(p1)) for _ in range(n)]
         except Exception as ex:
             ctx.violation("C20:reparse:raised", "%s(%r) twice raised %s" % (via, s_, type(ex).__name__), {"suite": "reparse", "string": s_, "via": via})
             continue
@@ -828,6 +839,12 @@ def reparse_cases(ctx):
         if p1 is p2:
             ctx.violation("C20:reparse:same-object", "%s(%r) returned the same stateful object twice" % (via, s_),
                           {"suite": "reparse", "string": s_, "via": via})
+        elif via == "str-subclass" and not isinstance(p2, iso.PSequence):
+            ctx.violation("C20:reparse:str-subclass-not-parsed", "a notation string of a subclass of str (%r) was not parsed: %r" % (s_, p2),
+                          {"suite": "reparse", "string": s_, "via": via})
+        elif again != first:
+            ctx.violation("C20:reparse:reset-resumes-mid-cycle", "%s(%r): yields %s; after %d values and reset() it yields %s" % (
+                via, s_, first, n + k, again), {"suite": "reparse", "string": s_, "via": via, "consumed": n + k})
         elif first != second:
             ctx.violation("C20:reparse:resumes-mid-cycle", "%s(%r): first parse yields %s, a second parse (after %d values were consumed from the first) yields %s" % (
                 via, s_, first, n + k, second), {"suite": "reparse", "string": s_, "via": via, "consumed": n + k})
